@@ -4,6 +4,8 @@
     Only statements; proofs are in coq/proofs/. *)
 From Coq Require Import List NArith Bool.
 From TG.Model Require Import CoreAst Scope BangOps Indexer ScopeSpec.
+From TG.Model Require ScopeSpecT.
+From TG.Proofs Require ScopeSimT ScopeSimWsT.
 From TG.Proofs Require Import IndexerTotal ScopeSimWs FieldLookupVisited ScopeBalance ScopeFrame ScopeSim ScopeSimStmt ScopeSimRec PosLog.
 Import ListNotations.
 Open Scope N_scope.
@@ -326,4 +328,55 @@ Example C05_visited_set_nonvacuous :
                mkRec [67] true [] [] [0] (mkR 0 4 5); mkRec [68] true [] [] [1; 2] (mkR 0 6 7)] in
   find_field_in 5 recs 3 [103] [] = (None, [2; 0; 1]) /\ find_field_visited 5 recs 3 [102] = Some 7 /\
   find_field 5 recs 3 [102] = Some 7.
+Proof. vm_compute. repeat split; reflexivity. Qed.
+
+(** C05_resolution WITH FIELD ACCESS `v.f` (partial: includes at the top level of a file only; the resolver knows
+    the record type of `v` only where it is written down - see below).
+    ScopeSpecT.v is the declarative resolver of ScopeSpec.v extended with what a field access needs: next to every
+    frame the environment records what is known about the TYPE of each declaration (nothing / the k-th class /
+    the k-th def, in the order of declaration), and next to the defs their flattened field tables.  A type is
+    known when it is written down: a field or template argument declared with a class type `A x`, a defvar whose
+    initialiser is an identifier or a class value, a def name used as a value, a class value `A<..>`.  A suffix
+    `.f` on a value of a known record type denotes the field f of the flattened table of that class / def (own
+    fields, then the parents' in order); on any other value - a bang operator, a foreach variable, an inherited or
+    `let`-redeclared field, after another suffix - the resolver lists the use as UNRESOLVED, so that
+    [well_scoped] does not hold and the theorem does not speak about that workspace (the check counts these:
+    evidence scope_spec.field_accesses_abstained, about 3 % of the generated field accesses).
+    For every workspace whose expanded statements are in the fragment [ScopeSpecT.frag_ws] (now: every value with
+    any suffixes) and all of whose uses the typed resolver resolves: the uses the model records, in order, each
+    with the file and range of its declaration - identifiers, classes, multiclasses AND fields reached through
+    `v.f` - are exactly the resolver's list, and there is no "not found" diagnostic.  No hypothesis on the model's
+    panic / fuel flag (IndexerTotal.index_ws_total).  Proofs: ScopeSimT / ScopeSimRecT / ScopeSimWsT (typed copies of
+    the development above; invariants: the class / def tables of the environment are aligned position by position
+    with the model's name maps, the record of a closed class / def has the recorded field table, every typed local
+    of the environment is a leaf of that record type in the model). *)
+Theorem C05_resolution_field_access_partial : forall w,
+    ScopeSpecT.frag_ws w = true -> ScopeSpecT.well_scoped w = true ->
+    rev (s_uses (index_ws w)) = ScopeSpecT.spec_uses w /\ ScopeSimT.nf (index_ws w) = [].
+Proof. intros w Hf HR. apply ScopeSimWsT.workspace_resolution; auto. apply index_ws_total. Qed.
+Check C05_resolution_field_access_partial : forall w,
+    ScopeSpecT.frag_ws w = true -> ScopeSpecT.well_scoped w = true ->
+    rev (s_uses (index_ws w)) = ScopeSpecT.spec_uses w /\ ScopeSimT.nf (index_ws w) = [].
+Print Assumptions C05_resolution_field_access_partial.
+
+(** Non-vacuity (REAL parse of a workspace of two files):
+      main.td:  include "a.td"
+                class B<A a> { A m = a; int y = a.x; int z = m.x; }
+                def d : A;
+                defvar v = d;
+                def e { int p = d.x; int q = v.x; }
+      a.td:     class A { int x = 1; }
+    13 uses; the four field accesses - through a template argument of class type (49..50), a field of class type
+    (62..63), a def name (110..111) and a defvar initialised with that def (123..124) - all resolve to the field x of
+    class A in the OTHER file (file 1, 14..15). *)
+Definition ex_fa : workspace :=
+  (mkWs [[(SInclude (mkR 0 0 15) (Some 1)); (SClass (mkId (mkR 0 21 22) [66]) (Some [(TArg (TyClass (mkId (mkR 0 23 24) [65])) (mkId (mkR 0 25 26) [97]) None)]) [] [(IField (TyClass (mkId (mkR 0 30 31) [65])) (mkId (mkR 0 32 33) [109]) (Some (Val (mkR 0 36 37) [(Inner (SId (mkId (mkR 0 36 37) [97])) [])]))); (IField TyInt (mkId (mkR 0 43 44) [121]) (Some (Val (mkR 0 47 50) [(Inner (SId (mkId (mkR 0 47 48) [97])) [(SufField (mkId (mkR 0 49 50) [120]) (mkR 0 48 50))])]))); (IField TyInt (mkId (mkR 0 56 57) [122]) (Some (Val (mkR 0 60 63) [(Inner (SId (mkId (mkR 0 60 61) [109])) [(SufField (mkId (mkR 0 62 63) [120]) (mkR 0 61 63))])])))]); (SDef (Some (Val (mkR 0 71 73) [(Inner (SId (mkId (mkR 0 71 72) [100])) [])])) (mkR 0 67 78) [(CRef (mkId (mkR 0 75 76) [65]) [] (mkR 0 75 76))] []); (SDefvar (mkId (mkR 0 85 86) [118]) (Val (mkR 0 89 90) [(Inner (SId (mkId (mkR 0 89 90) [100])) [])])); (SDef (Some (Val (mkR 0 96 98) [(Inner (SId (mkId (mkR 0 96 97) [101])) [])])) (mkR 0 92 128) [] [(IField TyInt (mkId (mkR 0 104 105) [112]) (Some (Val (mkR 0 108 111) [(Inner (SId (mkId (mkR 0 108 109) [100])) [(SufField (mkId (mkR 0 110 111) [120]) (mkR 0 109 111))])]))); (IField TyInt (mkId (mkR 0 117 118) [113]) (Some (Val (mkR 0 121 124) [(Inner (SId (mkId (mkR 0 121 122) [118])) [(SufField (mkId (mkR 0 123 124) [120]) (mkR 0 122 124))])])))])]; [(SClass (mkId (mkR 1 6 7) [65]) None [] [(IField TyInt (mkId (mkR 1 14 15) [120]) (Some (Val (mkR 1 18 19) [(Inner SInt [])])))])]] []).
+Example C05_resolution_field_access_nonvacuous :
+  ScopeSpecT.frag_ws ex_fa = true /\ ScopeSpecT.well_scoped ex_fa = true /\
+  length (ScopeSpecT.spec_uses ex_fa) = 13%nat /\
+  nth 4 (ScopeSpecT.spec_uses ex_fa) (mkR 0 0 0, None) = (mkR 0 49 50, Some (mkR 1 14 15)) /\
+  nth 6 (ScopeSpecT.spec_uses ex_fa) (mkR 0 0 0, None) = (mkR 0 62 63, Some (mkR 1 14 15)) /\
+  nth 10 (ScopeSpecT.spec_uses ex_fa) (mkR 0 0 0, None) = (mkR 0 110 111, Some (mkR 1 14 15)) /\
+  nth 12 (ScopeSpecT.spec_uses ex_fa) (mkR 0 0 0, None) = (mkR 0 123 124, Some (mkR 1 14 15)) /\
+  rev (s_uses (index_ws ex_fa)) = ScopeSpecT.spec_uses ex_fa.
 Proof. vm_compute. repeat split; reflexivity. Qed.
